@@ -373,6 +373,14 @@ pub trait Space<VM: VMBinding>: 'static + SFT + Sync + Downcast {
     }
 
     fn common(&self) -> &CommonSpace<VM>;
+
+    /// Verification hook: the side metadata specs (global, local) this space maps and accesses.
+    #[cfg(feature = "mmtk_verif")]
+    fn verif_side_metadata_specs(&self) -> (Vec<SideMetadataSpec>, Vec<SideMetadataSpec>) {
+        let c = &self.common().metadata;
+        (c.global.clone(), c.local.clone())
+    }
+
     fn get_gc_trigger(&self) -> &GCTrigger<VM> {
         self.common().gc_trigger.as_ref()
     }
